@@ -181,6 +181,12 @@ def main(tier, seed):
                             chk.violation('completion-blank-position', 'path-model', pr[:700], {'kind': 'blank', 'text': marked}, confirmed=True)
                     else:
                         chk.validated += 1
+        nb, bprobs = dotk.blank_after_statement(oracle)
+        for pr in bprobs[:3]:
+            chk.violation('completion-blank-position:after-statement', 'enumerated', pr[:700], {'kind': 'blank-after-statement'}, confirmed=True)
+        if not bprobs:
+            chk.validated += nb
+        chk.log('blank position after a binder-bearing statement: %d programs (3 statement kinds x 11 pattern shapes x 2 continuations), %d with a problem' % (nb, len(bprobs)))
         chk.log('dot completion: %d module surfaces (visibilities z3-enumerated); blank expression position vs typed prefix on %d rendered programs, %d differ' % (nsurf, npi, nbadpi))
         from . import modscope
         modscope.W = scopes.W
